@@ -24,7 +24,7 @@ def run(ctx):
     obs, info = [], {}
     ncli = [0]
     for i in range(300 if ctx.quick else 6000):
-        w = World(rnd, big_tids=True)
+        w = World(rnd, big_tids=True, allow_zero_tid=(i % 2 == 0))      # odd i: dumps with logs
         g = gen.ProgGen(w, rnd, ntids=3, noise=0.1)
         progs = [g.program(t, rnd.randrange(1, 4)) for t in (1, 2, 3)]
         stream = gen.interleave(rnd, progs)[:60]
